@@ -261,6 +261,44 @@ def programs(tier):
         for seq in ('S', 'E'):
             P.append(('fail_on_%s/%s' % ('_'.join(map(str, fo)), seq), prog,
                       {'a': [seq], 'b': ['S']}, {}))
+    # task kinds x policies: the same policies around a with-items task
+    # and around a sub-workflow task (every attempt re-runs all items / a
+    # new child)
+    leaf = direct({'s1': T(key='s1')}, output={'o': ['lit', 1]})
+    pols = [
+        ('retry1', {'retry': {'count': 1, 'delay': 0}}, 0),
+        ('retry1_delay', {'retry': {'count': 1, 'delay': 1}}, 1),
+        ('retry_cont', {'retry': {'count': 1, 'delay': 0,
+                                  'continue-on': ['true']}}, 0),
+        ('retry_break', {'retry': {'count': 2, 'delay': 0,
+                                   'break-on': ['true']}}, 0),
+        ('wait_before', {'wait-before': 1}, 1),
+        ('wait_after', {'wait-after': 1}, 1),
+        ('fail_on', {'fail-on': ['true']}, 0),
+    ]
+    for pname, pol, devs in pols:
+        kw = dict(pol)
+        kw.update({'on-success': ['b'], 'on-error': ['c']})
+        a = dict(kw)
+        a['with-items'] = 'i in <% $.xs %>'
+        prog = direct({'a': a, 'b': T(), 'c': T()},
+                      input={'xs': ['i0', 'i1']})
+        for tag, r0, r1 in (('SS', ['S'], ['S']), ('ES.S', ['E', 'S'], ['S']),
+                            ('EE.S', ['E', 'E'], ['S'])):
+            if quick and tag == 'EE.S' and 'retry' not in pname:
+                continue
+            P.append(('items_%s/%s' % (pname, tag), prog,
+                      {'i0': r0, 'i1': r1, 'b': ['S'], 'c': ['S']},
+                      {'clock_devs': devs}))
+        a = dict(kw)
+        a['workflow'] = 'sub'
+        prog = direct({'a': a, 'b': T(), 'c': T()}, subs={'sub': leaf})
+        for tag, r in (('S', ['S']), ('ES', ['E', 'S']), ('EE', ['E', 'E'])):
+            if quick and tag == 'EE' and 'retry' not in pname:
+                continue
+            P.append(('sub_%s/%s' % (pname, tag), prog,
+                      {'s1': r, 'b': ['S'], 'c': ['S']},
+                      {'clock_devs': devs, 'compare_ctx': False}))
     # pause-before, resumed by the operator
     prog = direct({'a': T(**{'on-success': ['b']}),
                    'b': T(**{'pause-before': True, 'on-success': ['c']}),
